@@ -153,7 +153,7 @@ func (m *RWMutex) grant() {
 }
 
 func noteAcquire(m any) {
-	if r := cur.Load(); r != nil && r.OnAcquire != nil {
+	if r := active(); r != nil && r.OnAcquire != nil {
 		if t := r.lookup(); t != nil {
 			r.OnAcquire(t, m)
 		}
@@ -161,7 +161,7 @@ func noteAcquire(m any) {
 }
 
 func noteRelease(m any) {
-	if r := cur.Load(); r != nil && r.OnRelease != nil {
+	if r := active(); r != nil && r.OnRelease != nil {
 		if t := r.lookup(); t != nil {
 			r.OnRelease(t, m)
 		}
